@@ -35,9 +35,36 @@ Definition f64_compare (a b : f64) : option comparison :=
 
 Definition f64_of_int_exact (z : Z) : f64 := FFin z 0.
 
-(* exact order of a float64 and an integer (compareFloatToInt) *)
+(* exact order of a float64 and an integer: the specification of compareFloatToInt *)
 Definition f64_compare_Z (a : f64) (z : Z) : option comparison :=
   f64_compare a (FFin z 0).
+
+(* compareFloatToInt (parser/int_operation.go) step by step:
+     f != f -> unordered;  f >= 2^63 -> +1;  f < -2^63 -> -1;
+     whole := math.Trunc(f); i := int(whole);
+     i < r -> -1;  i > r -> +1;  f < whole -> -1;  f > whole -> +1;  0            *)
+Definition two63 : Z := 9223372036854775808.
+Definition compare_float_to_int (a : f64) (r : Z) : option comparison :=
+  match a with
+  | FNaN => None
+  | FInf neg => Some (if neg then Lt else Gt)
+  | FFin m e =>
+      match dyadic_compare m e two63 0 with
+      | Lt =>
+          match dyadic_compare m e (- two63) 0 with
+          | Lt => Some Lt
+          | _ =>
+              (* math.Trunc: toward zero; exact because |f| < 2^63 *)
+              let whole := Z.quot (m * 2 ^ (Z.max e 0)) (2 ^ (Z.max (- e) 0)) in
+              match Z.compare whole r with
+              | Lt => Some Lt
+              | Gt => Some Gt
+              | Eq => Some (dyadic_compare m e whole 0)
+              end
+          end
+      | _ => Some Gt
+      end
+  end.
 
 (* ---- rounding a non-negative rational num/den to nearest-even binary64 ---- *)
 (* Some f : the rounded value (finite);  None : overflow (|x| >= 2^1024 after rounding) *)
